@@ -702,6 +702,171 @@ def check_fields(ctx) -> None:
             ctx.bad("C10.fields", r, r.node, f"{field}: the reader no longer calls {rc}; the attribute is lost on import")
 
 
+def check_member_lookup(ctx) -> None:
+    """Group members are written as references to reactions, species and gene products; the reader resolves a
+    reference through an id map and then dispatches on the kind of the object found. Every kind the dispatch handles
+    has to be *in* the map: the loop that fills it ranges over the document's list of that kind (a kind that is
+    handled but never entered makes the lookup fail with a KeyError - the whole document is then rejected)."""
+    fn = ctx.prog.func(MOD, "_sbml_to_model")
+    need = {"SBML_SPECIES": "getListOfSpecies", "SBML_REACTION": "getListOfReactions", "SBML_FBC_GENEPRODUCT": "getListOfGeneProducts"}
+    handled = {n.attr for n in walk_local(fn.node) if isinstance(n, ast.Attribute) and n.attr in need and any(isinstance(a, ast.Compare) for a in ancestors(n))}
+    # the id map: a dict stored under the id attribute of the loop variable
+    fills = [n for n in walk_local(fn.node) if isinstance(n, ast.Assign) and isinstance(n.targets[0], ast.Subscript) and isinstance(n.targets[0].slice, ast.Call) and norm(n.targets[0].slice.func).endswith("getIdAttribute")]
+    lookups = [n for n in walk_local(fn.node) if isinstance(n, ast.Subscript) and isinstance(n.slice, ast.Call) and norm(n.slice.func).endswith("getIdRef")]
+    if not handled or not fills or not lookups:
+        ctx.note("C10.kinds: the group member lookup of the reader is not in a recognised form; coverage of the id map not read")
+        return
+    maps = {norm(l.value) for l in lookups}
+    fills = [f for f in fills if norm(f.targets[0].value) in maps]
+    if not fills:
+        ctx.note("C10.kinds: the id map of the group member lookup is filled in no recognised way; not read")
+        return
+    got = set()
+    for f in fills:
+        for a in ancestors(f):
+            if a is fn.node:
+                break
+            if isinstance(a, ast.For):
+                got |= {x for x in _sources(ctx, fn, a.iter) if x.startswith("getListOf")}
+    missing = sorted(k for k in handled if need[k] not in got)
+    if missing and got:
+        ctx.bad("C10.kinds", fn, fills[0], f"group members of kind {missing} are handled by the member dispatch but their objects are never entered into the id map (it is filled from {sorted(got)}): a written group that contains such a member cannot be read back (KeyError, the document is rejected)")
+    elif got:
+        ctx.ok("C10.kinds", fn, fills[0], f"the id map of the group member lookup covers every kind the dispatch handles ({sorted(handled)})")
+    else:
+        ctx.note("C10.kinds: the lists the id map is filled from are not recognisable; not read")
+
+
+def check_objective_written(ctx) -> None:
+    """The writer creates a flux objective for a reaction exactly when its objective coefficient is not zero - of
+    either sign: the guards around `createFluxObjective` are evaluated for a negative, a zero and a positive
+    coefficient."""
+    fn = ctx.prog.func(MOD, "_model_to_sbml")
+    creates = [n for n in walk_local(fn.node) if isinstance(n, ast.Call) and isinstance(n.func, ast.Attribute) and n.func.attr == "createFluxObjective"]
+    if not creates:
+        ctx.bad("C10.fields", fn, fn.node, "the writer creates no flux objectives: the objective is lost")
+        return
+    c = creates[0]
+    loop = _innermost_loop(c, fn)
+    guards = []
+    for a in ancestors(c):
+        if a is loop or a is fn.node:
+            break
+        if isinstance(a, ast.If):
+            guards.append((a, any(c is x or c in ast.walk(x) for x in a.body)))
+    problems = []
+    for coef in (-0.25, 0, 0.0, 1.0, 1e-12):
+        def on_call(ev, call: ast.Call, _c=coef):
+            if isinstance(call.func, ast.Attribute) and call.func.attr == "get" and ("coef" in norm(call.func.value).lower() or "objective" in norm(call.func.value).lower()):
+                return _c
+            return NotImplemented
+
+        def on_attr(ev, at: ast.Attribute, _c=coef):
+            if at.attr == "objective_coefficient":
+                return _c
+            return NotImplemented
+
+        def on_sub(ev, sub: ast.Subscript, _c=coef):
+            if "coef" in norm(sub.value).lower():
+                return _c
+            return NotImplemented
+
+        ev = Evaluator({}, on_call=on_call, on_attr=on_attr, on_subscript=on_sub)
+        try:
+            taken = all(bool(ev.truth(g.test)) == in_body for g, in_body in guards)
+        except (Unknown, EvalRaise) as exc:
+            ctx.note(f"C10.fields: the guard of the written flux objectives cannot be evaluated ({exc}); not read")
+            return
+        if taken != (coef != 0):
+            problems.append(f"a reaction with objective coefficient {coef!r} {'gets' if taken else 'gets no'} flux objective")
+    if problems:
+        ctx.bad("C10.fields", fn, enclosing_stmt(c), "; ".join(problems[:2]) + ": the objective of the re-imported model differs (a negative coefficient is a coefficient)")
+    else:
+        ctx.ok("C10.fields", fn, enclosing_stmt(c), "a flux objective is written exactly for the reactions with a non-zero coefficient, of either sign (guards evaluated)")
+
+
+def check_create_bound(ctx) -> None:
+    """_create_bound evaluated: a bound equal to a shared default (configured lower/upper, 0, +-inf) is written as a
+    reference to the shared parameter of that value; any other bound gets a parameter of its own whose id is built
+    from the reaction id *after* the id replacement of reactions (a raw id with characters that are no SId characters
+    is rejected by libsbml without an error being raised, and the bound is lost), distinct for lower and upper bound
+    and for different reactions, and which carries the value."""
+    from ..interp import Interp
+
+    prog = ctx.prog
+    fn = prog.func(MOD, "_create_bound")
+    unit = prog.unit(MOD)
+    consts = {name: vals[-1].value for name, vals in unit.globals.items() if vals and isinstance(vals[-1], ast.Constant)}
+
+    class _S:
+        pass
+
+    class _R(_S):
+        def __init__(self, rid, lb, ub):
+            self.id, self.lower_bound, self.upper_bound = rid, lb, ub
+
+    created = []
+
+    def create_parameter(it_, ev, c, a, k):
+        kw = dict(k)
+        names = ["model", "pid", "value", "constant", "sbo", "units", "flux_udef"]
+        for n_, v in zip(names, a):
+            kw[n_] = v
+        created.append(kw)
+        return None
+
+    tagged = lambda x: "R__" + "".join(ch if ch.isalnum() or ch == "_" else f"__{ord(ch)}__" for ch in x)  # noqa: E731
+    problems = []
+    shared = {-1000.0: "LOWER_BOUND_ID", 0.0: "ZERO_BOUND_ID", 1000.0: "UPPER_BOUND_ID", float("-inf"): "BOUND_MINUS_INF", float("inf"): "BOUND_PLUS_INF"}
+    seen_ids = {}
+    n = 0
+    for rid in ("PFK", "EX_glc(e)", "R-1.2"):
+        for lb, ub in ((-1000.0, 1000.0), (0.0, float("inf")), (float("-inf"), 0.0), (-10.0, 7.5), (2000.0, 3000.0)):
+            for btype, val in (("lower_bound", lb), ("upper_bound", ub)):
+                for with_table in (True, False):
+                    created.clear()
+                    table = {consts.get("F_REACTION_REV", "F_REACTION_REV"): _Tag(tagged)} if with_table else None
+                    it = Interp(prog, (_S, _Tag), [], {f"{MOD}._create_parameter": create_parameter})
+                    try:
+                        out = it.call(fn, ["<model>", _R(rid, lb, ub), btype], {"f_replace": table, "units": None, "flux_udef": None})
+                    except EvalRaise as exc:
+                        problems.append(f"_create_bound({rid}, {btype}={val}) raises {exc.exc_type}")
+                        continue
+                    except Unknown as exc:
+                        raise AnalysisError(f"C10.bounds: _create_bound cannot be evaluated: {exc}")
+                    n += 1
+                    if val in shared:
+                        want = consts.get(shared[val])
+                        if out != want or created:
+                            problems.append(f"the {btype} {val} of {rid} is written as {out!r}{' with a new parameter' if created else ''}, expected the shared parameter {want!r}")
+                        continue
+                    if len(created) != 1 or created[0].get("pid") != out or created[0].get("value") != val:
+                        problems.append(f"the {btype} {val} of {rid}: returned {out!r}, parameters created {created}; expected one new parameter with this id and value")
+                        continue
+                    safe = tagged(rid) if with_table else rid
+                    if not isinstance(out, str) or safe not in out or (with_table and rid != safe and rid in out.replace(safe, "")):
+                        problems.append(f"the parameter for the {btype} of reaction {rid!r} is named {out!r}: its id is not built from the reaction id after the id replacement for reactions ({safe!r}) - an id with characters outside the SId alphabet is rejected by libsbml (return codes are not checked), the reaction then refers to no parameter and the bound is read back as the default")
+                        continue
+                    key = (with_table, out)
+                    if key in seen_ids and seen_ids[key] != (rid, btype):
+                        problems.append(f"the parameters of {seen_ids[key]} and {(rid, btype)} share the id {out!r}")
+                    seen_ids[key] = (rid, btype)
+    if problems:
+        ctx.bad("C10.bounds", fn, fn.node, problems[0] + (f" (+{len(problems) - 1} more)" if len(problems) > 1 else ""))
+    else:
+        ctx.ok("C10.bounds", fn, "bound parameters", f"{n} cases: shared parameters for the shared values, one parameter of its own otherwise - named after the replaced reaction id, distinct per reaction and side, carrying the value (evaluated)")
+
+
+class _Tag:
+    """An id replacement function of the f_replace table (callable stand-in)."""
+
+    def __init__(self, f):
+        self.f = f
+
+    def __call__(self, x):
+        return self.f(x)
+
+
 def check_annot(ctx) -> None:
     """_parse_annotations evaluated on stand-in SBase objects whose CV terms list resources in a given order (the URI
     parser is a stub that splits `provider|identifier`): the resulting annotation holds, per provider, every identifier
@@ -919,6 +1084,11 @@ def _sources(ctx, fn: FuncInfo, e: ast.AST, depth: int = 8, seen: Optional[Set[i
             for d in defs or []:
                 if d.kind in ("assign", "annassign", "unpack", "with", "elem", "elem_unpack") and isinstance(d.value, ast.AST):
                     out |= _sources(ctx, fn, d.value, depth - 1, seen)
+            # what is put into a local collection flows into it as well
+            for c in walk_local(fn.node):
+                if isinstance(c, ast.Call) and isinstance(c.func, ast.Attribute) and c.func.attr in ("append", "extend", "insert", "add", "update") and isinstance(c.func.value, ast.Name) and c.func.value.id == n.id:
+                    for a in c.args:
+                        out |= _sources(ctx, fn, a, depth - 1, seen)
     return out
 
 
@@ -990,11 +1160,14 @@ def run(ctx) -> None:
     check_escape(ctx)
     check_bounds(ctx)
     ctx.guard(check_peritem_sentinels, ctx)
+    ctx.guard(check_create_bound, ctx)
     check_sign(ctx)
     check_direction(ctx)
     ctx.guard(check_active_objective, ctx)
     check_fields(ctx)
     ctx.guard(check_compartment_source, ctx)
+    ctx.guard(check_objective_written, ctx)
+    ctx.guard(check_member_lookup, ctx)
     check_annot(ctx)
     c08.check_siblings(ctx)
     c02.check_owner(ctx)
